@@ -182,3 +182,24 @@ def check_move_cost(ctx, f: FuncInfo, rule, value_field: str, gain: str):
             ctx.check(len(c.args) == 2 and norm(c.args[1]) == f"self.current_cost - {gain}", rule, f"{f.qualname}: move records cost = current - gain", f, c,
                       f"after the move the local cost is the current cost minus the gain (= the best cost)")
     return n
+
+
+def check_go_decision(ctx, hg2, rule):
+    """MGM2, committed branch of _handle_gain_messages: the local go is True exactly when there is no neighbour other than the
+    partner or the pair gain is strictly better than the best of theirs; the go message sent to the partner carries the same value."""
+    ff2 = FuncFacts(hg2.node)
+    cm = [n for n in walk_no_nested(hg2.node) if isinstance(n, ast.Assign) and norm(n.targets[0]) == "self._can_move"]
+    posts = [c for c in walk_no_nested(hg2.node) if isinstance(c, ast.Call) and is_self_attr(c.func, "post_msg") and isinstance(c.args[1], ast.Call) and call_name(c.args[1]) == "Mgm2GoMessage"]
+    okp = len(cm) == 2 and len(posts) == 2
+    if okp:
+        for a in cm:
+            fs = facts(ff2, a)
+            val = norm(a.value)
+            lic = any(t.startswith("neigh_gains == [] or self._is_better_gain(self._potential_gain, self._best_gain(neigh_gains))") and p for t, p in fs)
+            nol = ("neigh_gains == []", False) in fs and ("self._is_better_gain(self._potential_gain, self._best_gain(neigh_gains))", False) in fs
+            okp = okp and ("self._committed", True) in fs and ((val == "True" and lic) or (val == "False" and nol))
+            blk = [p_ for p_ in posts if facts(ff2, p_) == fs]
+            okp = okp and len(blk) == 1 and norm(blk[0].args[1].args[0]) == val and norm(blk[0].args[0]) == "self._partner.name"
+    ctx.check(okp, rule, "MGM2: local go iff the pair gain is strictly best among the other neighbours (or there is none); the same decision is sent to the partner", hg2,
+              cm[0] if cm else hg2.node, "_can_move and the go message must carry the same decision, taken against all neighbours but the partner; "
+              "a pair that announced its gain and then does not go ends the cycle without a move while it blocked its neighbours")
